@@ -1,8 +1,10 @@
 (* C12 — LeveledUpdateBatch as an instance of the two-pass argument:
-   pass 1 = merge steps over [concat levels] with J = old ⊔ new, pass 2 = exact steps over
-   [concat (rev levels)]. The level structure gives the two orders. *)
+   pass 1 = merge steps over [concat levels] with J = old ⊔ new, pass 2 = exact steps over the
+   levels from the last to the first, each level backwards (as repaired by ce7ebc1), which is
+   [rev (concat levels)]. The only order fact needed is [topo_ok]: the flattened batch lists every
+   parent before its children — levels may hold a cgroup together with its children. *)
 From Coq Require Import List ZArith Bool Lia ZifyBool Permutation Sorting.Sorted.
-From Verif Require Import C12.Model C12.Spec C12.Proofs_Lattice C12.Proofs_Steps C12.Proofs_Pass.
+From Verif Require Import C12.Model C12.Spec C12.Proofs_Lattice C12.Proofs_Steps C12.Proofs_Pass C12.Proofs_Be.
 Import ListNotations.
 Open Scope Z_scope.
 
@@ -27,147 +29,40 @@ Proof.
 Qed.
 
 (* ---------- the two orders ---------- *)
-Lemma concat_rev_perm {A} (l : list (list A)) : Permutation (concat (rev l)) (concat l).
+Lemma concat_map_rev_rev {A} (l : list (list A)) : concat (map (@rev A) (rev l)) = rev (concat l).
 Proof.
   induction l as [|a l IH]; [reflexivity|].
-  cbn [rev concat]. rewrite concat_app. cbn [concat]. rewrite app_nil_r.
-  etransitivity; [apply Permutation_app_comm|]. apply Permutation_app_head. exact IH.
+  cbn [rev concat]. rewrite map_app, concat_app, IH. cbn [map concat]. rewrite app_nil_r, rev_app_distr. reflexivity.
 Qed.
 
-Lemma in_concat_rev {A} (l : list (list A)) x : In x (concat (rev l)) <-> In x (concat l).
-Proof. split; apply Permutation_in; [|symmetry]; apply concat_rev_perm. Qed.
-
-Lemma SS_app_intro {A} (R : A -> A -> Prop) l1 l2 :
-  StronglySorted R l1 -> StronglySorted R l2 -> (forall a b, In a l1 -> In b l2 -> R a b) ->
-  StronglySorted R (l1 ++ l2).
+Lemma topo_ok_spec e us :
+  topo_ok e us = true ->
+  forall c p, In (c, p) (ehier e) -> In c (map ukey us) -> In p (map ukey us) ->
+              (pos p (map ukey us) < pos c (map ukey us))%nat.
 Proof.
-  induction l1 as [|x l1 IH]; intros H1 H2 Hc; [exact H2|].
-  inversion H1 as [|? ? Hs Hf]. subst. cbn [app]. constructor.
-  - apply IH; auto. intros a b Ha Hb. apply Hc; [right; exact Ha|exact Hb].
-  - apply Forall_app. split; [exact Hf|]. apply Forall_forall. intros b Hb. apply Hc; [left; reflexivity|exact Hb].
+  unfold topo_ok. rewrite forallb_forall. intros H c p Hin Hc Hp.
+  specialize (H (c, p) Hin). cbn [fst snd] in H.
+  apply inb_In in Hc. apply inb_In in Hp. rewrite Hc, Hp in H. cbn in H. apply Nat.ltb_lt. exact H.
 Qed.
 
-Lemma SS_app_elim {A} (R : A -> A -> Prop) l1 l2 :
-  StronglySorted R (l1 ++ l2) -> forall a b, In a l1 -> In b l2 -> R a b.
+Lemma topo_ord1 e us :
+  topo_ok e us = true ->
+  forall c p, In (c, p) (ehier e) -> In p (map ukey us) ->
+  forall a b, map ukey us = a ++ b -> In c a -> In p a.
 Proof.
-  induction l1 as [|x l1 IH]; intros H a b Ha Hb; [contradiction|].
-  cbn [app] in H. inversion H as [|? ? Hs Hf]. subst. destruct Ha as [->|Ha].
-  - rewrite Forall_forall in Hf. apply Hf. apply in_or_app. right. exact Hb.
-  - apply IH; assumption.
+  intros Ht c p Hin Hp a b Hsplit Hc.
+  apply (pos_prefix_closed (map ukey us) p c a b); [|exact Hsplit|exact Hc].
+  apply (topo_ok_spec e us Ht c p Hin); [|exact Hp]. rewrite Hsplit. apply in_or_app. left. exact Hc.
 Qed.
 
-Lemma SS_const {A B} (R : A -> A -> Prop) (f : B -> A) (l : list B) :
-  (forall a b, In a l -> In b l -> R (f a) (f b)) -> StronglySorted R (map f l).
+Lemma topo_ord2 e us :
+  topo_ok e us = true -> NoDup (map ukey us) ->
+  forall c p, In (c, p) (ehier e) -> In c (map ukey (rev us)) ->
+  forall a b, map ukey (rev us) = a ++ b -> In p a -> In c a.
 Proof.
-  induction l as [|x l IH]; intros H; cbn [map]; constructor.
-  - apply IH. intros a b Ha Hb. apply H; right; assumption.
-  - apply Forall_forall. intros y Hy. apply in_map_iff in Hy. destruct Hy as [b [<- Hb]].
-    apply H; [left; reflexivity|right; exact Hb].
-Qed.
-
-Notation titem := (nat * updater)%type.
-Definition le_tag (a b : titem) : Prop := (fst a <= fst b)%nat.
-Definition ge_tag (a b : titem) : Prop := (fst b <= fst a)%nat.
-
-Lemma tag_levels_ge i ls : forall a, In a (concat (tag_levels i ls)) -> (i <= fst a)%nat.
-Proof.
-  revert i. induction ls as [|l ls IH]; intros i a Ha; [contradiction|].
-  cbn [tag_levels concat] in Ha. apply in_app_or in Ha. destruct Ha as [Ha|Ha].
-  - apply in_map_iff in Ha. destruct Ha as [u [<- _]]. cbn. lia.
-  - specialize (IH (S i) a Ha). lia.
-Qed.
-
-Lemma tag_levels_sorted i ls : StronglySorted le_tag (concat (tag_levels i ls)).
-Proof.
-  revert i. induction ls as [|l ls IH]; intros i; [constructor|].
-  cbn [tag_levels concat]. apply SS_app_intro.
-  - apply SS_const. intros a b _ _. unfold le_tag. cbn. lia.
-  - apply IH.
-  - intros a b Ha Hb. apply in_map_iff in Ha. destruct Ha as [u [<- _]].
-    apply tag_levels_ge in Hb. unfold le_tag. cbn [fst]. lia.
-Qed.
-
-Lemma tag_levels_rev_sorted i ls : StronglySorted ge_tag (concat (rev (tag_levels i ls))).
-Proof.
-  revert i. induction ls as [|l ls IH]; intros i; [constructor|].
-  cbn [tag_levels rev]. rewrite concat_app. cbn [concat]. rewrite app_nil_r. apply SS_app_intro.
-  - apply IH.
-  - apply SS_const. intros a b _ _. unfold ge_tag. cbn. lia.
-  - intros a b Ha Hb. apply in_map_iff in Hb. destruct Hb as [u [<- _]].
-    apply (proj1 (in_concat_rev _ _)) in Ha. apply tag_levels_ge in Ha. unfold ge_tag. cbn [fst]. lia.
-Qed.
-
-Lemma untag_levels i ls : map (map snd) (tag_levels i ls) = ls.
-Proof.
-  revert i. induction ls as [|l ls IH]; intros i; [reflexivity|].
-  cbn [tag_levels map]. rewrite IH. f_equal. rewrite map_map. cbn [snd]. apply map_id.
-Qed.
-
-Lemma untag_concat levels : map snd (tagged levels) = concat levels.
-Proof. unfold tagged. rewrite concat_map, untag_levels. reflexivity. Qed.
-
-Lemma untag_concat_rev levels : map snd (concat (rev (tag_levels 0 levels))) = concat (rev levels).
-Proof. rewrite concat_map, map_rev, untag_levels. reflexivity. Qed.
-
-Definition tkey (a : titem) : Z := ukey (snd a).
-
-Lemma levels_ok_spec e levels :
-  levels_ok e levels = true ->
-  forall c p a b, In (c, p) (ehier e) -> In a (tagged levels) -> In b (tagged levels) ->
-                  tkey a = c -> tkey b = p -> (fst b < fst a)%nat.
-Proof.
-  unfold levels_ok, edge_levels_ok. rewrite forallb_forall. intros H c p a b Hin Ha Hb Hka Hkb.
-  specialize (H (c, p) Hin). rewrite forallb_forall in H. specialize (H a Ha).
-  rewrite forallb_forall in H. specialize (H b Hb). cbn [fst snd] in H. unfold tkey in *. lia.
-Qed.
-
-(* a split of the keys of [map snd T] is a split of T *)
-Lemma split_tagged (T : list titem) (a b : list Z) :
-  map ukey (map snd T) = a ++ b ->
-  exists TA TB, T = TA ++ TB /\ map tkey TA = a /\ map tkey TB = b.
-Proof.
-  rewrite map_map. intros H. apply map_eq_app in H. destruct H as (TA & TB & H1 & H2 & H3).
-  exists TA, TB. auto.
-Qed.
-
-Lemma in_map_tkey (T : list titem) k : In k (map tkey T) -> exists t, In t T /\ tkey t = k.
-Proof. intros H. apply in_map_iff in H. destruct H as [t [H1 H2]]. exists t. auto. Qed.
-
-Lemma leveled_ord1 e levels :
-  levels_ok e levels = true ->
-  forall c p, In (c, p) (ehier e) -> In p (map ukey (concat levels)) ->
-  forall a b, map ukey (concat levels) = a ++ b -> In c a -> In p a.
-Proof.
-  intros Hlv c p Hin Hp a b Hsplit Hc.
-  rewrite Hsplit in Hp. apply in_app_or in Hp. destruct Hp as [Hp|Hp]; [exact Hp|exfalso].
-  rewrite <- untag_concat in Hsplit. apply split_tagged in Hsplit.
-  destruct Hsplit as (TA & TB & HT & HA & HB). subst a b.
-  apply in_map_tkey in Hc. destruct Hc as [ta [Hta Hka]].
-  apply in_map_tkey in Hp. destruct Hp as [tb [Htb Hkb]].
-  pose proof (tag_levels_sorted 0 levels) as Hs. fold (tagged levels) in Hs. rewrite HT in Hs.
-  pose proof (SS_app_elim _ _ _ Hs ta tb Hta Htb) as Hle. unfold le_tag in Hle.
-  assert (Hlt : (fst tb < fst ta)%nat).
-  { apply (levels_ok_spec e levels Hlv c p ta tb Hin); auto; rewrite HT; apply in_or_app; auto. }
-  lia.
-Qed.
-
-Lemma leveled_ord2 e levels :
-  levels_ok e levels = true ->
-  forall c p, In (c, p) (ehier e) -> In c (map ukey (concat (rev levels))) ->
-  forall a b, map ukey (concat (rev levels)) = a ++ b -> In p a -> In c a.
-Proof.
-  intros Hlv c p Hin Hc a b Hsplit Hp.
-  rewrite Hsplit in Hc. apply in_app_or in Hc. destruct Hc as [Hc|Hc]; [exact Hc|exfalso].
-  rewrite <- untag_concat_rev in Hsplit. apply split_tagged in Hsplit.
-  destruct Hsplit as (TA & TB & HT & HA & HB). subst a b.
-  apply in_map_tkey in Hp. destruct Hp as [tp [Htp Hkp]].
-  apply in_map_tkey in Hc. destruct Hc as [tc [Htc Hkc]].
-  pose proof (tag_levels_rev_sorted 0 levels) as Hs. rewrite HT in Hs.
-  pose proof (SS_app_elim _ _ _ Hs tp tc Htp Htc) as Hge. unfold ge_tag in Hge.
-  assert (Hlt : (fst tp < fst tc)%nat).
-  { apply (levels_ok_spec e levels Hlv c p tc tp Hin); auto;
-      unfold tagged; apply (proj1 (in_concat_rev _ _)); rewrite HT; apply in_or_app; auto. }
-  lia.
+  intros Ht Hnd c p Hin Hc a b Hsplit Hp. rewrite map_rev in Hsplit, Hc. apply in_rev in Hc.
+  apply (pos_rev_prefix_closed (map ukey us) p c a b Hnd Hc); [|exact Hsplit|exact Hp].
+  apply (topo_ok_spec e us Ht c p Hin Hc). apply in_rev. rewrite Hsplit. apply in_or_app. left. exact Hp.
 Qed.
 
 (* ---------- hypotheses, unpacked ---------- *)
@@ -179,7 +74,7 @@ Record hyps (e : env) (fs : fmap) (levels : list (list updater)) : Prop := mkHyp
   h_start : validF e (get fs);
   h_target : validF e (get (target_of fs (concat levels)));
   h_nodup : NoDup (map ukey (concat levels));
-  h_levels : levels_ok e levels = true;
+  h_topo : topo_ok e (concat levels) = true;
   h_vals_fs : forall k, In k (files_of e) -> vok (kindof e k) (get fs k) = true;
   h_vals_us : forall u, In u (concat levels) -> vok (kindof e (ukey u)) (uval u) = true /\ In (ukey u) (files_of e) }.
 
@@ -206,7 +101,7 @@ Section Leveled.
   Hypothesis Hcoh : coherent_st st.
 
   Let us1 := concat levels.
-  Let us2 := concat (rev levels).
+  Let us2 := rev (concat levels).
   Let old := get (sfs st).
   Let new := get (target_of (sfs st) us1).
   Let J := fun k => if inb k (map ukey us1) then vjoin (kindof e k) (old k) (new k) else old k.
@@ -238,15 +133,12 @@ Section Leveled.
   Qed.
 
   Lemma lv_same k : In k (map ukey us1) <-> In k (map ukey us2).
-  Proof.
-    unfold us1, us2. split; intros Hk; apply in_map_iff in Hk; destruct Hk as [u [Hk Hu]];
-      apply in_map_iff; exists u; (split; [exact Hk|]); [apply (proj2 (in_concat_rev _ _))|apply (proj1 (in_concat_rev _ _))]; exact Hu.
-  Qed.
+  Proof. unfold us2. fold us1. rewrite map_rev. apply in_rev. Qed.
 
   Lemma lv_nd2 : NoDup (map ukey us2).
   Proof.
     apply Permutation_NoDup with (map ukey us1); [|apply (h_nodup _ _ _ H)].
-    apply Permutation_map. symmetry. apply concat_rev_perm.
+    apply Permutation_map. unfold us2. fold us1. apply Permutation_rev.
   Qed.
 
   Lemma lv_step1 s u :
@@ -260,7 +152,7 @@ Section Leveled.
 
   Lemma lv_us2 u : In u us2 -> uval u = new (ukey u) /\ -1 <= uval u.
   Proof.
-    intros Hu. apply (proj1 (in_concat_rev _ _)) in Hu. fold us1 in Hu. split.
+    intros Hu. unfold us2 in Hu. apply in_rev in Hu. fold us1 in Hu. split.
     - symmetry. apply lv_new_in. exact Hu.
     - apply vok_ge with (kindof e (ukey u)). apply (h_vals_us _ _ _ H u Hu).
   Qed.
@@ -276,7 +168,8 @@ Section Leveled.
     (fst (run (exact_step e) (fst (run (merge_step e) st us1)) us2),
      snd (run (merge_step e) st us1) ++ snd (run (exact_step e) (fst (run (merge_step e) st us1)) us2)).
   Proof.
-    unfold leveled_update. fold us1 us2.
+    unfold leveled_update. rewrite concat_map_rev_rev.
+    change (rev (concat levels)) with us2. change (concat levels) with us1.
     destruct (run (merge_step e) st us1) as [s1 t1]. cbn [fst snd].
     destruct (run (exact_step e) s1 us2) as [s2 t2]. reflexivity.
   Qed.
@@ -300,7 +193,7 @@ Section Leveled.
     apply (two_pass_all e (merge_step e) us1 us2 old new J st
              (h_kinds _ _ _ H) (h_start _ _ _ H) (h_target _ _ _ H) lv_oJ lv_nJ lv_Jm
              (fun k => eq_refl) Hcoh (h_nodup _ _ _ H) lv_nd2 lv_same lv_out lv_step1 lv_us2
-             (leveled_ord1 e levels (h_levels _ _ _ H)) (leveled_ord2 e levels (h_levels _ _ _ H))).
+             (topo_ord1 e us1 (h_topo _ _ _ H)) (topo_ord2 e us1 (h_topo _ _ _ H) (h_nodup _ _ _ H))).
   Qed.
 
   Theorem leveled_prefix_valid : every_prefix_valid e (sfs st) (snd res).
